@@ -13,7 +13,7 @@ def run(ctx):
                 "engine answers must not change. distinct_nontrivial = storages containing noise lines + parse events yielding a rule")
     ctx.assumptions = ["'rejected' is whatever the real NewRule rejects; exact classification is asserted only for blank lines and '!' comments"]
     quick = ctx.tier == "quick"
-    storagecheck.run(ctx, [(2, 2, [4096]), (3, 1, [])] if quick else [(3, 2, [4096, 9000])], noise=True,
+    storagecheck.run(ctx, [(2, 2, [4096, 9000]), (3, 1, [])] if quick else [(3, 2, [4096, 9000])], noise=True,
                      only=lambda m: m["store"] in ("denoised", "other-eol") or "panic" in m["why"])
     trace = os.path.join(ctx.work, "lines-trace.ndjson")
     n = 20000 if quick else 400000
